@@ -17,7 +17,7 @@
    under key over exactly the header and extension bytes that precede it.
    Quantification is over ALL byte strings, keys, nonces, identifiers. *)
 From Coq Require Import ZArith List Bool Lia.
-From ST Require Import Base.Ints Model.NtsAuth Proofs.NtsAuthProofs Proofs.NtsAuthComplete Proofs.NtsAuthInstance.
+From ST Require Import Base.Ints Model.NtsAuth Proofs.NtsAuthProofs Proofs.NtsAuthComplete Proofs.NtsAuthMore Proofs.NtsAuthInstance.
 Import ListNotations.
 Open Scope Z_scope.
 
@@ -68,6 +68,98 @@ Theorem C10_client_loop_sound : forall seal open, ideal_aead seal open ->
   exists p, verifies seal (nth k ds []) key p /\ p_uid p = reqID.
 Proof. exact c10_client_loop_sound0. Qed.
 Print Assumptions C10_client_loop_sound.
+
+(* ---- what exactly the AEAD is assumed to give, and the rejection clauses from it ---- *)
+(* [aead_siv seal open] (Proofs/NtsAuthMore.v): Open inverts Seal; Open succeeds
+   only on Seal's own output for the same key, nonce and associated data; equal
+   seals have the same nonce, associated data and plaintext and keys with the
+   same first (S2V/CMAC) half - the same key when the plaintext is not empty; the
+   ciphertext is 16 bytes longer than the plaintext.  This is what AES-SIV is
+   believed to meet.  [ideal_aead] (injective in the whole key) is stronger and is
+   NOT met by AES-SIV for empty plaintexts - every NTS request: the second (CTR)
+   half of the key is not used then.  The theorems of this block need aead_siv only. *)
+Theorem C10_ideal_implies_siv : forall seal open, ideal_aead seal open -> aead_siv seal open.
+Proof. exact ideal_implies_siv. Qed.
+Print Assumptions C10_ideal_implies_siv.
+
+(* the honest statement: whatever is accepted (by the server, or by a client
+   with any identifier) verifies, and - when the only seal under the receiver's
+   key that can reach it is the one of the honest packet b1 (nobody without the
+   key makes another: authenticity) - it carries exactly the ciphertext, the
+   nonce and the authenticated bytes of b1, under a key with the same first half
+   (the same key if the plaintext is not empty) *)
+Theorem C10_accept_only_honest : forall seal open, aead_siv seal open ->
+  forall b1 k1 p1 b2 k2 p2,
+  verifies seal b1 k1 p1 -> only_seal_in_circulation seal b2 k2 p1 -> verifies seal b2 k2 p2 ->
+  p_ct p2 = p_ct p1 /\ mac_half k2 = mac_half k1 /\ (length (p_ct p1) <> 16%nat -> k2 = k1) /\
+  p_nonce p2 = p_nonce p1 /\ p_pos p2 = p_pos p1 /\
+  firstn (p_pos p1) b2 = firstn (p_pos p1) b1.
+Proof. exact siv_accept_only_honest. Qed.
+Print Assumptions C10_accept_only_honest.
+
+(* the clause: any change to the ciphertext, the nonce or an authenticated byte,
+   or a key with another first half (any other key when something is encrypted),
+   is rejected by the server and by a client with any outstanding identifier *)
+Theorem C10_tamper_any : forall seal open, aead_siv seal open ->
+  forall b1 k1 p1 b2 k2 p2,
+  verifies seal b1 k1 p1 -> only_seal_in_circulation seal b2 k2 p1 -> decode_packet b2 = Ok p2 ->
+  (p_ct p2 <> p_ct p1 \/ p_nonce p2 <> p_nonce p1 \/
+   firstn (p_pos p1) b2 <> firstn (p_pos p1) b1 \/ mac_half k2 <> mac_half k1 \/
+   (length (p_ct p1) <> 16%nat /\ k2 <> k1)) ->
+  (forall r, server_accept open b2 k2 <> Ok r) /\ (forall id r, client_accept open b2 k2 id <> Ok r).
+Proof. exact siv_tamper_any. Qed.
+Print Assumptions C10_tamper_any.
+
+(* ... and a datagram that DecodePacket refuses is rejected (no hypothesis) *)
+Theorem C10_undecodable_rejected : forall open b key,
+  (forall p, decode_packet b <> Ok p) ->
+  (forall r, server_accept open b key <> Ok r) /\ (forall id r, client_accept open b key id <> Ok r).
+Proof. exact undecodable_rejected. Qed.
+Print Assumptions C10_undecodable_rejected.
+
+(* the two length fields inside the authenticator are the lengths of the nonce
+   and of the ciphertext that the decoder hands to the authentication step *)
+Theorem C10_decode_lengths : forall b p, decode_packet b = Ok p ->
+  length (p_nonce p) = Z.to_nat (be16 b (p_pos p + 4)) /\
+  length (p_ct p) = Z.to_nat (be16 b (p_pos p + 6)).
+Proof. exact decode_lengths. Qed.
+Print Assumptions C10_decode_lengths.
+
+(* so a changed nonce-length or ciphertext-length field is rejected *)
+Theorem C10_tamper_lengths : forall seal open, aead_siv seal open ->
+  forall b1 k1 p1 b2 k2 p2,
+  verifies seal b1 k1 p1 -> only_seal_in_circulation seal b2 k2 p1 -> decode_packet b2 = Ok p2 ->
+  p_pos p2 = p_pos p1 ->
+  (Z.to_nat (be16 b2 (p_pos p1 + 4)) <> Z.to_nat (be16 b1 (p_pos p1 + 4)) \/
+   Z.to_nat (be16 b2 (p_pos p1 + 6)) <> Z.to_nat (be16 b1 (p_pos p1 + 6))) ->
+  (forall r, server_accept open b2 k2 <> Ok r) /\ (forall id r, client_accept open b2 k2 id <> Ok r).
+Proof. exact siv_tamper_lengths. Qed.
+Print Assumptions C10_tamper_lengths.
+
+(* the use of a different key, with the hypothesis the real cipher meets: a key
+   with another first half is rejected; any other key is rejected when the
+   plaintext is not empty (every response).  For a request (empty plaintext) a
+   key that differs in the second half only is NOT covered - and is accepted by
+   the real AES-SIV (observation recorded in the configuration, cases tagged ctrhalf) *)
+Theorem C10_wrong_key : forall seal open, aead_siv seal open ->
+  forall b k1 p k2,
+  verifies seal b k1 p ->
+  (mac_half k2 <> mac_half k1 \/ (length (p_ct p) <> 16%nat /\ k2 <> k1)) ->
+  (forall r, server_accept open b k2 <> Ok r) /\ (forall id r, client_accept open b k2 id <> Ok r).
+Proof. exact siv_wrong_key. Qed.
+Print Assumptions C10_wrong_key.
+
+(* the use of the other direction: a packet sealed under the C2S key is rejected
+   by the client (it holds S2C), a packet sealed under S2C by the server *)
+Theorem C10_wrong_direction : forall (export : bytes -> bytes -> bytes) seal open,
+  (forall l c c', export l c = export l c' -> c = c') -> ideal_aead seal open ->
+  forall b p,
+  (verifies seal b (snd (export_keys export)) p ->
+   forall id r, client_accept open b (fst (export_keys export)) id <> Ok r) /\
+  (verifies seal b (fst (export_keys export)) p ->
+   forall r, server_accept open b (snd (export_keys export)) <> Ok r).
+Proof. exact wrong_direction. Qed.
+Print Assumptions C10_wrong_direction.
 
 (* ---- tampering, keys, direction, identifier ---- *)
 
@@ -251,6 +343,10 @@ Print Assumptions C10_cookie_sound.
    receiver's direction (no one without the key can make one).  Then for EVERY
    datagram b, key, direction and outstanding identifier the oracle that is
    evaluated on the implementation accepts the model's decision. *)
+(* NOTE on the third hypothesis: the completeness half of the oracle ("an honest
+   packet delivered unchanged is accepted") is taken as a hypothesis here - that
+   the model accepts what honest senders sent; it is discharged for the packets of
+   the project's own encoder by C10_complete / C10_complete_encoder. *)
 Theorem C10_model_meets_packet_oracle : forall seal open, ideal_aead seal open ->
   forall hs b key dir reqid,
   (forall h, In h hs -> honest_ok seal h) -> unforgeable seal hs b key dir ->
@@ -270,11 +366,69 @@ Theorem C10_model_meets_cookie_oracle : forall seal open, ideal_aead seal open -
 Proof. exact c10_cookie_oracle. Qed.
 Print Assumptions C10_model_meets_cookie_oracle.
 
+(* NOTE: both ends of a connection apply ExportKeys to the same TLS exporter, so
+   in the model both ends ARE export_keys export; that the two ends of a real
+   connection agree is crypto/tls's property and is observed on a real handshake on
+   every run.  The content of this theorem is the third conjunct of the oracle:
+   the two directions get different keys. *)
 Theorem C10_model_meets_export_oracle : forall export : bytes -> bytes -> bytes,
   (forall l c c', export l c = export l c' -> c = c') ->
   let '(s2c, c2s) := export_keys export in C10_export_ok s2c c2s s2c c2s = true.
 Proof. exact export_oracle. Qed.
 Print Assumptions C10_model_meets_export_oracle.
+
+(* the same under the hypotheses AES-SIV meets (the oracle's key clause is
+   key_accepts: the same key, or the same first half when the honest packet's
+   plaintext is empty) *)
+Theorem C10_model_meets_packet_oracle_siv : forall seal open, aead_siv seal open ->
+  forall hs b key dir reqid,
+  (forall h, In h hs -> honest_ok seal h) -> unforgeable seal hs b key dir ->
+  (forall h, In h hs -> model_accepts open (h_bytes h) (h_key h) (h_dir h) (h_uid h) = true) ->
+  (dir = 0 \/ dir = 1) ->
+  C10_packet_ok hs b key dir reqid (model_accepts open b key dir reqid) = true.
+Proof. exact siv_packet_oracle. Qed.
+Print Assumptions C10_model_meets_packet_oracle_siv.
+
+(* the client's receive loop (kind cl.ip / cl.scion): for every sequence of
+   datagrams, with or without a deadline, the oracle accepts the datagram the
+   model computes the measurement from (third hypothesis: as above) *)
+Theorem C10_model_meets_client_oracle : forall seal open, aead_siv seal open ->
+  forall hs ds key reqid dl,
+  (forall h, In h hs -> honest_ok seal h) ->
+  (forall b, In b ds -> unforgeable seal hs b key 1) ->
+  (forall h, In h hs -> model_accepts open (h_bytes h) (h_key h) (h_dir h) (h_uid h) = true) ->
+  C10_client_ok hs ds key reqid (used_of (client_loop open dl key reqid ds 0 0)) = true.
+Proof. exact model_meets_client_oracle. Qed.
+Print Assumptions C10_model_meets_client_oracle.
+
+(* a long session (kind nts.session): identifiers are fresh - uids is injective,
+   the assumption on crypto/rand - so the response to request k is accepted by the
+   client with request n outstanding only if k = n *)
+Theorem C10_model_meets_session_oracle : forall seal open, aead_siv seal open ->
+  forall (uids : Z -> bytes), (forall a b, uids a = uids b -> a = b) ->
+  forall b key n k p,
+  decode_packet b = Ok p -> p_uid p = uids k ->
+  C10_session_ok (model_accepts open b key 1 (uids n)) n k = true.
+Proof. exact model_meets_session_oracle. Qed.
+Print Assumptions C10_model_meets_session_oracle.
+
+(* a rejected packet hands nothing to the client's cookie store *)
+Theorem C10_model_meets_reject_clean : forall o : outcome packet,
+  C10_reject_clean (match o with Ok _ => true | _ => false end) (client_stored o) = true.
+Proof. exact model_meets_reject_clean. Qed.
+Print Assumptions C10_model_meets_reject_clean.
+
+(* the cookies a listener re-issues (the request's server cookie sealed again
+   under the current key, one nonce each) open under that key to exactly that
+   server cookie - which by C10_listener_sound is what the request's own cookie
+   opened to *)
+Theorem C10_model_meets_reissue_oracle : forall seal open, ideal_aead seal open ->
+  forall sc key keyid rnds replied,
+  wf_cookie sc -> lenz (sc_s2c sc) + lenz (sc_c2s sc) < 65000 -> key_ok key = true ->
+  Forall (fun r : bytes => length r = 16%nat) rnds ->
+  C10_reissue_ok replied (reissued_ok open sc key (reissue seal sc key keyid rnds)) = true.
+Proof. exact model_meets_reissue_oracle. Qed.
+Print Assumptions C10_model_meets_reissue_oracle.
 
 (* ---- listeners ---- *)
 (* the NTS part of runIPServer / runSCIONServer (DecodePacket, FirstCookie,
@@ -369,3 +523,12 @@ Example C10_response_reachable :
   | _ => False
   end.
 Proof. vm_compute. reflexivity. Qed.
+
+(* aead_siv is satisfiable by a cipher that, like AES-SIV, ignores the second
+   half of the key when the plaintext is empty - so it does not imply ideal_aead *)
+Example C10_aead_siv_instance : aead_siv ex2_seal ex2_open.
+Proof. exact (conj ex2_open_seal (conj ex2_open_only_seal (conj ex2_seal_inj_siv ex2_seal_len))). Qed.
+
+Example C10_aead_siv_ctr_half_unused : forall n ad,
+  [1; 2] <> [1; 3] /\ ex2_seal [1; 2] n ad [] = ex2_seal [1; 3] n ad [].
+Proof. exact ex2_ctr_half_unused. Qed.
